@@ -63,9 +63,19 @@ func main() {
 	listRules := flag.Bool("rules", false, "list rules and exit")
 	verbose := flag.Bool("v", false, "print every obligation")
 	noSelftest := flag.Bool("no-selftest", false, "thorough tier without the variant self-test")
+	dumpCodec := flag.Bool("dump-codec", false, "print the encoder/decoder field tables and exit")
 	selftestOnly := flag.String("selftest", "", "run only the variant self-test of the given property (comma list or 'all') and print the outcome")
 	flag.Parse()
 
+	if *dumpCodec {
+		c, err := load(*repo, *overlay, nil)
+		if err != nil {
+			fmt.Println(err)
+			os.Exit(2)
+		}
+		fmt.Print(c.dumpCodec())
+		return
+	}
 	if *selftestOnly != "" {
 		var ids []string
 		if *selftestOnly == "all" {
